@@ -1409,9 +1409,15 @@ where
         }
         let buf: &'b [u8] = &rem[..v];
         let rem: &'b [u8] = &rem[v..];
-        let (m, empty): (M, &'a [u8]) = <M as Unpackable<'a>>::unpack(buf)?;
-        // TODO(rescrv): assert is nasty
-        assert_eq!(0, empty.len());
+        let (m, tail): (M, &'a [u8]) = <M as Unpackable<'a>>::unpack(buf)?;
+        // An enum stops after the field that selects its variant.  Whatever follows within this
+        // message's bytes is fields the reader does not know: skip them, but insist that they are
+        // well-formed rather than asserting that there are none.
+        let mut error: Option<crate::SError> = None;
+        for _ in crate::FieldIterator::new(tail, &mut error) {}
+        if let Some(error) = error {
+            return Err(error.into());
+        }
         Ok((Self(m), rem))
     }
 }
